@@ -9,6 +9,8 @@ package main
 // into the trace that Trace_Proxy.tla judges.
 
 import (
+	"bufio"
+	"bytes"
 	"encoding/json"
 	"fmt"
 	"math/rand"
@@ -16,6 +18,7 @@ import (
 	"regexp"
 	"sort"
 	"strings"
+	"sync"
 	"testing"
 )
 
@@ -967,6 +970,145 @@ func TestVfTcpPipeline(t *testing.T) {
 				"resolv": pr.resolv(b, append(oms, in)...), "panic": "", "stuck": stuck, "learned_obs": vfM{}})
 		}
 		cli.close()
+		ncase++
+	}
+	fmt.Printf("VF cases=%d events=%d\n", ncase, tr.n)
+}
+
+// TestVfConcurrentRelay: C01 "over every listener configuration" - a service with two listeners has two message loops
+// that relay at the same time.  Loop 1 relays each of its requests to a next hop over a TCP connection it still has to
+// open (the widest window between encoding a message and handing it to the kernel), loop 2 relays a stream of requests
+// to a UDP next hop meanwhile.  Every message that arrives at a next hop is compared with the input it belongs to:
+// the TCP next hops each serve one request of the round (attribution by destination), the UDP stream keeps its order
+// (one loop, one socket, loopback).
+func TestVfConcurrentRelay(t *testing.T) {
+	tr := vfOpenTrace(t, "VERIF_TRACE")
+	defer tr.Close()
+	pr := &vfProxyRun{t: t, tr: tr, branches: map[string]bool{}}
+	pr.g = &vfGamma{base: vfIPBase(), rnd: vfRand(34), decor: 1, hard: true}
+	for _, n := range strings.Split(vfNamesCfg, ",") {
+		if p, err := regexp.Compile(strings.TrimSpace(n)); err == nil {
+			pr.names = append(pr.names, p)
+		}
+	}
+	g := pr.g
+	const nhop = 16
+	usink := vfAllSinks.get(t, g.ip("10.0.1.4"), 6001)
+	var tsinks []*vfSink
+	static := []vfRouteCfg{{"udp", "e.x", g.ip("10.0.1.4") + ":6001"}}
+	for k := 0; k < nhop; k++ {
+		tsinks = append(tsinks, vfAllSinks.get(t, g.ip("10.0.1.5"), 6100+k))
+		static = append(static, vfRouteCfg{"tcp", fmt.Sprintf("t%d.y", k), fmt.Sprintf("%s:%d", g.ip("10.0.1.5"), 6100+k)})
+	}
+	cfg := vfBenchCfg{Names: vfNamesCfg, Hosts: g.hosts(), Static: static,
+		Proxies: []vfPCfg{{Addr: g.ip("10.0.0.1"), Trans: []vfTCfg{{"UDP", 5060, false}}, Recv: true}, {Addr: g.ip("10.0.0.2"), Trans: []vfTCfg{{"UDP", 5060, false}}, Recv: true}}}
+	b := vfGetBench(t, cfg)
+	nround := vfEnvInt("VERIF_NROUND", 12)
+	ncase := 0
+	mk := func(id string, i int, tohost string) []byte {
+		X := g.extHeaders()
+		if len(X) > 3 {
+			X = X[:3]
+		}
+		bl := []int{0, 10, 300, 1200}[g.rnd.Intn(4)]
+		body := make([]byte, bl)
+		for j := range body {
+			body[j] = byte('a' + (i*11+j)%26)
+		}
+		hs := []vfHdr{{"Via", fmt.Sprintf("SIP/2.0/UDP %s:5062;branch=z9hG4bKc%s-%d", g.ip("10.0.2.1"), id, i)}, {"Max-Forwards", "70"},
+			{"From", fmt.Sprintf("<sip:a%d@a.example>;tag=f%d", i, i)}, {"To", "<sip:b@" + tohost + ">"}, {"Call-ID", fmt.Sprintf("%s-%d", id, i)}, {"CSeq", fmt.Sprintf("%d MESSAGE", i+1)}}
+		for _, x := range X {
+			if len(x.v) < 600 {
+				hs = append(hs, x)
+			}
+		}
+		hs = append(hs, vfHdr{g.name("Content-Length"), fmt.Sprint(bl)})
+		return vfRender("MESSAGE sip:b@"+tohost+" SIP/2.0", hs, body)
+	}
+	for ri := 0; ri < nround; ri++ {
+		id := fmt.Sprintf("conc%d", ri)
+		b.reset(t) // no connection is open: every TCP next hop of the round has to be dialled
+		pr.emitReset(id, b)
+		nudp := 40 + g.rnd.Intn(40)
+		var in1, in2 [][]byte
+		for k := 0; k < nhop; k++ {
+			in1 = append(in1, mk(id+"t", k, fmt.Sprintf("t%d.y", k)))
+		}
+		for i := 0; i < nudp; i++ {
+			in2 = append(in2, mk(id+"u", i, "e.x"))
+		}
+		vfAllSinks.pollAll()
+		parse := func(raw []byte) *Message {
+			m, err := ParseMessage(bufio.NewReaderSize(bytes.NewBuffer(raw), len(raw)))
+			if err != nil {
+				t.Fatalf("VF-INFRA generated message not accepted by the parser (%v):\n%q", err, raw)
+			}
+			return m
+		}
+		var wg sync.WaitGroup
+		feed := func(pi int, ins [][]byte) {
+			defer wg.Done()
+			for _, raw := range ins {
+				b.proxies[pi].HandleRawMessage(NewRawMessage(g.ip("10.0.5.5"), 40000+pi, b.trans[pi][0], true, parse(raw)))
+			}
+		}
+		wg.Add(2)
+		go feed(0, in1)
+		go feed(1, in2)
+		wg.Wait()
+		stuck := false
+		for i := 0; i < len(in1)+len(in2); i++ {
+			if !b.wait("loop.msg") {
+				stuck = true
+				break
+			}
+		}
+		emit := func(pi int, i int, raw []byte, got []vfRecv, cls string) {
+			in := vfAlpha(raw)
+			outs := []vfM{}
+			oms := []vfAMsg{in}
+			for _, rv := range got {
+				am := vfAlpha(rv.raw)
+				oms = append(oms, am)
+				outs = append(outs, vfM{"kind": "sink", "addr": fmt.Sprintf("%s:%d", rv.ip, rv.port), "ip": rv.ip, "port": rv.port, "proto": rv.proto, "msg": am, "cookie": true, "fresh": true})
+			}
+			tohost := ""
+			for _, h := range in.Hdrs {
+				if h.Cls == "to" && len(h.Ents) > 0 {
+					tohost = h.Ents[0].Uri.Host
+				}
+			}
+			tr.Emit(vfM{"ev": "step", "case": id, "cls": cls, "pi": pi + 1, "lid": fmt.Sprintf("p%d.t1", pi+1),
+				"src": vfM{"ip": g.ip("10.0.5.5"), "port": 40000 + pi}, "inmsg": in, "outs": outs, "pool": []string{}, "rx": vfM{"sip": false, "abs": false}, "tohost": vfChars(tohost),
+				"resolv": pr.resolv(b, oms...), "panic": "", "stuck": stuck, "learned_obs": vfM{}})
+		}
+		for k, raw := range in1 {
+			emit(0, k, raw, tsinks[k].poll(), fmt.Sprintf("two-loops tcp-next-hop-to-dial index=%d", k))
+		}
+		got := usink.poll()
+		if len(got) == len(in2) {
+			for i, raw := range in2 {
+				emit(1, i, raw, got[i:i+1], fmt.Sprintf("two-loops udp-stream n=%d index=%d", nudp, i))
+			}
+		} else {
+			// not one datagram per request (C03's business): attribute by Call-ID, what matches nothing goes to the first request
+			byCid := map[string][]vfRecv{}
+			for _, rv := range got {
+				cid := ""
+				for _, h := range vfAlpha(rv.raw).Hdrs {
+					if h.Cls == "callid" {
+						cid = h.Val
+					}
+				}
+				if !strings.HasPrefix(cid, id+"u-") {
+					cid = id + "u-0"
+				}
+				byCid[cid] = append(byCid[cid], rv)
+			}
+			for i, raw := range in2 {
+				emit(1, i, raw, byCid[fmt.Sprintf("%su-%d", id, i)], fmt.Sprintf("two-loops udp-stream n=%d index=%d", nudp, i))
+			}
+		}
 		ncase++
 	}
 	fmt.Printf("VF cases=%d events=%d\n", ncase, tr.n)
